@@ -124,6 +124,36 @@ func genC12(t *rapid.T) C12Case {
 	if h.Thorough() {
 		maxD = 3000
 	}
+	if rapid.IntRange(0, 24).Draw(t, "mixed") == 0 {
+		// binary / octal mantissa (prefix form) with fractional digits and a DECIMAL 'e' exponent, also at the ends of the
+		// int32 range: math/big cannot be asked there, the value is m*2^k (exact, from math/big on the mantissa alone) x 10^e
+		c.Kind = "mixed"
+		c.Entry = rapid.SampledFrom([]string{"parse", "parse", "setstring", "unmarshaltext", "parsedecimal"}).Draw(t, "entry")
+		base := rapid.SampledFrom([]int{2, 8}).Draw(t, "mbase")
+		digs := map[int]string{2: "01", 8: "01234567"}[base]
+		var b strings.Builder
+		n := rapid.IntRange(1, 20).Draw(t, "mn")
+		for i := 0; i < n; i++ {
+			b.WriteByte(digs[rapid.IntRange(0, len(digs)-1).Draw(t, "mdg")])
+		}
+		m := b.String()
+		pt := rapid.IntRange(0, n).Draw(t, "mpt")
+		m = m[:pt] + "." + m[pt:]
+		var e int64
+		switch rapid.IntRange(0, 3).Draw(t, "mecls") {
+		case 0:
+			e = int64(rapid.IntRange(-60, 60).Draw(t, "me"))
+		case 1:
+			e = model.MinExp + int64(rapid.IntRange(-30, 40).Draw(t, "me"))
+		case 2:
+			e = model.MaxExp + int64(rapid.IntRange(-40, 30).Draw(t, "me"))
+		default:
+			e = int64(rapid.Int32().Draw(t, "me"))
+		}
+		c.S = rapid.SampledFrom([]string{"", "-", "+"}).Draw(t, "msign") + map[int]string{2: "0b", 8: "0o"}[base] + m + "e" + strconv.FormatInt(e, 10)
+		c.Base = 0
+		return c
+	}
 	switch k := rapid.IntRange(0, 9).Draw(t, "kind"); {
 	case k <= 4:
 		c.Kind = "dec"
@@ -291,6 +321,9 @@ func checkC12(c C12Case, o *h.Obs) *h.Fail {
 		}
 		return nil
 	}
+	if c.Kind == "mixed" {
+		return checkC12Mixed(c, o, got, err, wantPrec)
+	}
 	// differential with math/big
 	mag, huge := expMagnitude(c.S)
 	if huge || mag > 10000 || len(c.S) > 5000 {
@@ -349,7 +382,71 @@ func checkC12(c C12Case, o *h.Obs) *h.Fail {
 	return nil
 }
 
-const ruleC12 = "rapid-generated inputs of three kinds. (dec) base-10 literals of the documented grammar with the value known by construction: sign, digits split around the point anywhere, leading/trailing zeros, '_' separators in legal positions, e/E exponents over the whole int32 range and beyond, up to 600 (quick) / 3000 (thorough) digits with rounding patterns; through Parse, SetString, ParseDecimal, UnmarshalText and Scan (fmt.Sscan with surrounding blanks); receiver precision 0 or 1..80, six modes. Oracle: literal's exact value rounded once (value, accuracy, precision 34 if it was 0, base 10); scaled exponent outside int32 => error. (any) literals in base 2/8/16 or with p exponents, one- and two-character mutations of valid literals (deleted/inserted/replaced/duplicated characters, misplaced '_'), short strings over the alphabet of number characters, a list of hostile constants: acceptance and detected base must coincide with math/big Float.Parse (compared when the exponent field is <= 10000 in magnitude), the value must be exact when its decimal expansion fits the precision and within 1 ulp of the correctly rounded value otherwise (exact rational taken from math/big at a precision that makes it exact). Always: no panic, err != nil => returned *Decimal is nil, receiver canonical. Non-trivial = an accepted literal that needs rounding, or a rejected string; distinct by case."
+// checkC12Mixed: literal = [sign] (0b|0o) digits "." digits "e" exp. The mantissa's exact value comes from
+// math/big (parsed without the exponent), the decimal exponent is applied symbolically.
+func checkC12Mixed(c C12Case, o *h.Obs, got h.Snap, err error, wantPrec uint) *h.Fail {
+	i := strings.LastIndexByte(c.S, 'e')
+	mant, es := c.S[:i], c.S[i+1:]
+	e, perr := strconv.ParseInt(es, 10, 64)
+	if perr != nil {
+		return h.Failf("bad-case", "exponent %q", es)
+	}
+	bf, _, berr := new(big.Float).SetPrec(uint(4*len(mant) + 64)).Parse(mant, 0)
+	if berr != nil || bf.Acc() != big.Exact {
+		return h.Failf("INFRA-oracle", "math/big rejects the mantissa %q: %v", mant, berr)
+	}
+	o.Label("mixed")
+	r, _ := bf.Rat(nil)
+	if r.Sign() == 0 {
+		if err != nil {
+			return nil // a zero mantissa with an extreme exponent may be rejected or accepted; nothing demanded
+		}
+		if got.Form != model.Zero || got.Neg != bf.Signbit() {
+			return h.Failf("value", "%s(%q) = %v, want a zero with the literal's sign", c.Entry, c.S, got.Val())
+		}
+		return nil
+	}
+	ex := model.FromRat(r, 0)
+	if ex.Sticky {
+		return h.Failf("INFRA-oracle", "binary mantissa without a terminating expansion")
+	}
+	ex.Exp += e // exact value of the literal
+	if err != nil {
+		// rejection is legitimate only at the ends of the exponent range (which of the nearby exponents are
+		// rejected depends on the mantissa's digit count: not demanded here)
+		if ex.Exp > model.MinExp+80 && ex.Exp < model.MaxExp-80 {
+			return h.Failf("rejected", "%s(%q) rejected (%v) although its value %v is far inside the range", c.Entry, c.S, err, ex.Val)
+		}
+		o.Label("mixed:rejected-at-range-end")
+		o.NonTrivial()
+		return nil
+	}
+	want, _ := model.Round(ex, uint64(wantPrec), model.Mode(c.M)) // includes the range rule
+	if ex.Exp < model.MinExp+80 || ex.Exp > model.MaxExp-80 {
+		o.Label("mixed:at-range-end")
+		o.NonTrivial()
+	}
+	if want.Form != model.Finite || got.Form != model.Finite {
+		if !got.Val().Equal(want) {
+			return h.Failf("range", "%s(%q) at precision %d %v: got %v, the literal's value %v gives %v", c.Entry, c.S, wantPrec, model.Mode(c.M), got.Val(), ex.Val, want)
+		}
+		return nil
+	}
+	if uint(len(ex.Digits)) <= wantPrec {
+		if !got.Val().Equal(ex.Val) {
+			return h.Failf("value", "%s(%q) at precision %d: representable value %v stored as %v", c.Entry, c.S, wantPrec, ex.Val, got.Val())
+		}
+		return nil
+	}
+	o.NonTrivial()
+	if dist := model.UlpDistance(got.Val(), want, uint64(wantPrec)); dist.Cmp(big.NewRat(1, 1)) > 0 {
+		f, _ := dist.Float64()
+		return h.Failf("ulp", "%s(%q) at precision %d %v: got %v, correctly rounded %v: %.3g ulp apart", c.Entry, c.S, wantPrec, model.Mode(c.M), got.Val(), want, f)
+	}
+	return nil
+}
+
+const ruleC12 = "rapid-generated inputs of three kinds. (dec) base-10 literals of the documented grammar with the value known by construction: sign, digits split around the point anywhere, leading/trailing zeros, '_' separators in legal positions, e/E exponents over the whole int32 range and beyond, up to 600 (quick) / 3000 (thorough) digits with rounding patterns; through Parse, SetString, ParseDecimal, UnmarshalText and Scan (fmt.Sscan with surrounding blanks); receiver precision 0 or 1..80, six modes. Oracle: literal's exact value rounded once (value, accuracy, precision 34 if it was 0, base 10); scaled exponent outside int32 => error. (any) literals in base 2/8/16 or with p exponents, one- and two-character mutations of valid literals (deleted/inserted/replaced/duplicated characters, misplaced '_'), short strings over the alphabet of number characters, a list of hostile constants: acceptance and detected base must coincide with math/big Float.Parse (compared when the exponent field is <= 10000 in magnitude), the value must be exact when its decimal expansion fits the precision and within 1 ulp of the correctly rounded value otherwise (exact rational taken from math/big at a precision that makes it exact). (mixed) binary/octal mantissas with fractional digits and a decimal e exponent over the whole int32 range and at its ends: value = exact binary mantissa (math/big) x 10^e with the range rule (underflow to a signed zero, overflow to infinity), exact when representable, 1 ulp otherwise; rejection accepted only within 80 of a range end. Always: no panic, err != nil => returned *Decimal is nil, receiver canonical. Non-trivial = an accepted literal that needs rounding, or a rejected string; distinct by case."
 
 var propC12 = &h.Prop[C12Case]{ID: "C12", Rule: ruleC12, Gen: genC12, Check: checkC12, Matchers: map[string]func(C12Case) bool{}}
 
